@@ -52,7 +52,12 @@ class View:
 
 
 def new_comp(kind, name, serial):
-    return {"name": name, "kind": kind, "val": H.value(kind, serial)}
+    c = {"name": name, "kind": kind, "val": H.value(kind, serial)}
+    if kind == "pmux" and serial % 3 == 0:
+        # on-resistance per input, as a LIST of 1-3 entries whatever the number of inputs turns out to be: a list that is too short is
+        # accepted by the editing calls (solve() complains later) - acceptance and rejection must both be all-or-nothing
+        c["rs_list"] = 1 + (serial // 3) % 3
+    return c
 
 
 def _rail_choice(rng, cfg, v, kind, name):
